@@ -422,9 +422,11 @@ func buildBlock(b *ck.Builder, spec ck.BlockSpec, excluded *int) (*block.Block, 
 	if err != nil {
 		return nil, err
 	}
+	deposits := ck.NotaryDeposits(bc)
 	if err := bc.AddBlock(blk); err != nil {
 		return nil, fmt.Errorf("builder rejected its own block %d: %w", blk.Index, err)
 	}
+	b.NoteFlows(blk, deposits)
 	for _, tx := range txs {
 		b.TxHashes = append(b.TxHashes, tx.Hash())
 	}
@@ -635,6 +637,38 @@ func (g *gen) callbacks() {
 	}
 }
 
+// oracle: requests through a library contract, answered some blocks later (GAS minted to the Oracle contract by the
+// request, burnt as the fees of the response, the designated oracle nodes paid by PostPersist); sometimes the oracle
+// nodes are re-designated in between.
+func (g *gen) oracle() {
+	i := g.ir(0, max(0, g.n-3), "o_start")
+	nreq := g.ir(1, 3, "o_nreq")
+	for k := 0; k < nreq; k++ {
+		a := ck.Action{From: g.account("o_from")}
+		ck.GenOracleRequest(g.t, &a)
+		g.add(i+g.ir(0, 1, "o_req_d"), a)
+	}
+	if g.ir(0, 3, "o_redesignate") == 0 {
+		g.add(i+g.ir(0, 3, "o_des_d"), ck.Action{Kind: "designate", From: g.account("o_payer"), A: int(noderoles.Oracle), B: g.ir(1, 7, "o_keys")})
+	}
+	for k := g.ir(1, nreq+1, "o_nresp"); k > 0; k-- {
+		a := ck.Action{}
+		ck.GenOracleResponse(g.t, &a)
+		g.add(i+g.ir(1, 5, "o_resp_d"), a)
+	}
+}
+
+// assisted: notary-assisted transactions charged to a deposit (fees deducted by Notary.OnPersist, the service fee minted to
+// the designated notary nodes), incl. one that consumes the rest of the deposit and one that asks for one unit more.
+func (g *gen) assisted() {
+	i := g.ir(0, max(0, g.n-3), "a_start")
+	for k := g.ir(1, 4, "a_n"); k > 0; k-- {
+		a := ck.Action{}
+		ck.GenNotaryAssisted(g.t, &a)
+		g.add(i+g.ir(0, 5, "a_d"), a)
+	}
+}
+
 func (g *gen) faults() {
 	for k := g.ir(1, 3, "f_n"); k > 0; k-- {
 		at := g.ir(0, g.n-1, "f_at")
@@ -729,7 +763,7 @@ func genCase(t *rapid.T) Case {
 	c.Chain.SRIH = rapid.Bool().Draw(t, "srih")
 	c.Chain.P2PSig = rapid.IntRange(0, 3).Draw(t, "p2psig") != 0
 	c.Chain.HFStagger = rapid.IntRange(0, 3).Draw(t, "hfstagger") == 0
-	bias := ck.GenBias{Governance: 5, Value: 6, Storage: 1, Faults: 2, Attrs: 5, P2PSig: c.Chain.P2PSig}
+	bias := ck.GenBias{Governance: 5, Value: 6, Storage: 1, Faults: 2, Attrs: 5, P2PSig: c.Chain.P2PSig, Oracle: 1, Notary: 1}
 	n := rapid.IntRange(10, 40).Draw(t, "nblocks")
 	for i := 0; i < n; i++ {
 		c.Blocks = append(c.Blocks, ck.GenBlock(t, bias, 3))
@@ -749,6 +783,12 @@ func genCase(t *rapid.T) Case {
 	}
 	if g.ir(0, 1, "s_fault") == 0 {
 		g.faults()
+	}
+	if g.ir(0, 2, "s_oracle") != 0 {
+		g.oracle()
+	}
+	if c.Chain.P2PSig && g.ir(0, 2, "s_nassist") != 0 {
+		g.assisted()
 	}
 	if g.ir(0, 1, "s_whole") == 0 {
 		g.whole()
@@ -1515,6 +1555,9 @@ func checkCase(c Case, o *vt.Obs) error {
 	}
 	sort.Strings(ls)
 	for _, l := range ls {
+		o.Label(l)
+	}
+	for _, l := range b.FlowLabels() {
 		o.Label(l)
 	}
 	var rs []string
